@@ -6,9 +6,10 @@ C01 — evaluating a formula yields exactly its documented truth function.
 fixed-point loop.  The theorem covers every formula — any nesting depth, any mix of
 constructs, names reused as bound and free — whose fixed-point bodies are monotone in
 their bound name (`GoodF`; `goodF_of_posFix` gives a syntactic criterion), and every
-assignment.  It is a partial-correctness statement: *if* the evaluator returns (every
-fixed-point loop stops), the answer is right.  Termination for fixed-point-free formulas
-is `evalF_total_nofix`; termination of the fixed-point loops is the unproved part of C06.
+assignment.  `evalF_sound` is the partial-correctness statement: *if* the evaluator returns, the
+answer is right.  Termination for fixed-point-free formulas is `evalF_total_nofix`; termination
+in general (monotone fixed points) is `C06.evalF_total` (`Proofs/Termination.lean`), which
+imports this file.
 The text-level statement composes with `Thm/C08` (parser).
 -/
 import Rsbdd.Proofs.Positive
